@@ -1,20 +1,3 @@
-    "C05": dict(
-        category="proof",
-        text="Theorems (every depth, both runners): executing a nested graph as a node IS translating the addressed inputs to the inner "
-             "names (C06), running the inner graph, and translating its (selected) outputs back; errors surface unchanged, a pause gets the "
-             "wrapper's name prefixed; the executor does not read the outer state. INLINING: on the dataflow equations of C01, whenever "
-             "the wrapper's inputs are present, the solutions of the nested system and of the flat system (wrapper replaced by the inner "
-             "nodes) coincide (C05_inlining_equations / _converse / _values); on runs of the engine model, a COMPLETED run of a graph "
-             "containing a GraphNode (Nested.exec_ng, no renames, exposing all inner outputs) and a COMPLETED run of the flat graph return "
-             "the same values, for either runner on the outer, inner and flat runs, any budgets and node orders (C05_inlining_runs; "
-             "hypotheses instantiated in C05_inlining_example). Renames at the boundary: C05_boundary_inputs/_outputs. Inner selections, "
-             "inner/outer/double bindings, renamed wrappers combined with inlining, depth 1-3 and repeated runs with mutated defaults are "
-             "decided on generated nestings (flat vs nested input spec and values).",
-        design_ref="DESIGN.md section 5 C05",
-        note="The run-level inlining theorem is for acyclic gate-free inner graphs, identity boundary, completed runs; the other "
-             "configurations are established per generated nesting by the oracle plus the model correspondence.",
-        technique="Coq proof (GraphNode executor characterisation; inlining via uniqueness of the solution of the dataflow equations) + metamorphic oracle flat vs nested",
-    ),
 """Regenerates MANIFEST.json from the table below (kept in one place so it stays valid)."""
 import json
 from pathlib import Path
@@ -97,14 +80,18 @@ CLAIMED.update({
         category="proof",
         text="Theorems (every depth, both runners): executing a nested graph as a node IS translating the addressed inputs to the inner "
              "names (C06), running the inner graph, and translating its (selected) outputs back; errors surface unchanged, a pause gets the "
-             "wrapper's name prefixed; the executor does not read the outer state, so a nested graph is a function node and the engine "
-             "theorems (C01 fix-point, C02 schedules, ...) apply to graphs containing nested graphs. The inlining equivalence itself is "
-             "decided on generated nestings: flat vs nested input spec and values for convex groups, depth 1-3, inner/outer/double bindings, "
-             "inner selections, renamed wrapper inputs.",
+             "wrapper's name prefixed; the executor does not read the outer state. INLINING: on the dataflow equations of C01, whenever "
+             "the wrapper's inputs are present, the solutions of the nested system and of the flat system (wrapper replaced by the inner "
+             "nodes) coincide (C05_inlining_equations / _converse / _values); on runs of the engine model, a COMPLETED run of a graph "
+             "containing a GraphNode (Nested.exec_ng, no renames, exposing all inner outputs) and a COMPLETED run of the flat graph return "
+             "the same values, for either runner on the outer, inner and flat runs, any budgets and node orders (C05_inlining_runs; "
+             "hypotheses instantiated in C05_inlining_example). Renames at the boundary: C05_boundary_inputs/_outputs. Inner selections, "
+             "inner/outer/double bindings, renamed wrappers combined with inlining, depth 1-3 and repeated runs with mutated defaults are "
+             "decided on generated nestings (flat vs nested input spec and values).",
         design_ref="DESIGN.md section 5 C05",
-        note="partial: 'run (nest g S) = run g' is established per generated nesting by the oracle plus the model correspondence, not as a "
-             "Coq theorem; one concrete nesting is proved equal by vm_compute (C05_nonvacuous).",
-        technique="Coq proof (characterisation of the GraphNode executor, reuse of C06/C01) + metamorphic oracle flat vs nested",
+        note="The run-level inlining theorem is for acyclic gate-free inner graphs, identity boundary, completed runs; the other "
+             "configurations are established per generated nesting by the oracle plus the model correspondence.",
+        technique="Coq proof (GraphNode executor characterisation; inlining via uniqueness of the solution of the dataflow equations) + metamorphic oracle flat vs nested",
     ),
     "C09": dict(
         category="proof",
